@@ -34,7 +34,7 @@ def build_ops(keys, vals):
         for v in vals:
             ops += [("set", k, v), ("append", k, v), ("setdefault", k, v), ("update_map", k, v), ("update_pairs", k, v)]
         ops += [("del", k), ("poplist", k), ("pop", k), ("popd", k), ("setlist", k, ()), ("setlist", k, (vals[0],)),
-                ("setlist", k, (vals[1], vals[0])), ("update_kw", k, vals[0])]
+                ("setlist", k, (vals[1], vals[0])), ("update_kw", k, vals[0]), ("setdefault0", k)]  # setdefault0: setdefault(key) without a default (None, MutableMapping's contract)
     ops += [("popitem",), ("clear",), ("update_multi",)]
     return ops
 
@@ -54,6 +54,8 @@ def apply_real(m, op):
             return m.append(op[1], op[2])
         if o == "setdefault":
             return m.setdefault(op[1], op[2])
+        if o == "setdefault0":
+            return m.setdefault(op[1])
         if o == "update_map":
             return m.update({op[1]: op[2]})
         if o == "update_pairs":
@@ -115,6 +117,10 @@ def check_step(model, real, op, ret):
         if have:
             return real, None if real == model and ret == have[-1] else "setdefault-existing-changed-or-wrong-return"
         return real, None if real == model + [(k, op[2])] and ret == op[2] else "setdefault-new-wrong"
+    if o == "setdefault0":
+        if have:
+            return real, None if real == model and ret == have[-1] else "setdefault-existing-changed-or-wrong-return"
+        return real, None if real == model + [(k, None)] and ret is None else "setdefault-without-default-wrong"
     if o == "del":
         if not have:
             return real, None if ret is KeyError and real == model else "delete-missing-key-no-KeyError"
